@@ -26,9 +26,9 @@ def make_cases(tier, profile):
     ospec = dict(base, sym_users=True)
     for l in ['KILL bob :go away', 'KILL dave :x', 'KILL alice :self', 'DIE', 'DIE :bye all', 'SQUIT irc.irc :stop', 'SQUIT other.srv :stop', 'WALLOPS :attention', 'WALLOPS hello', 'STATS u', 'STATS m']:
         cases.append(dict(name=l, line=l, judges=['no_panic', 'inv', 'opcmd'], spec=ospec))
-    lspec = dict(base, sym_users=True, default_user_modes={'local_oper': True})
-    for l in ['KILL bob :go away', 'DIE', 'SQUIT irc.irc :x', 'WALLOPS :attention', 'STATS u', 'MODE alice -O', 'MODE alice -o', 'MODE alice +o']:
-        cases.append(dict(name=l + ' [every user is a local operator by default_user_modes]', line=l, judges=['no_panic', 'inv', 'opcmd', 'umode'], spec=lspec))
+    lspec = dict(base, sym_users=True, default_user_modes={'local_oper': True}, operators=[('opname', 'goodpw', None)])
+    for l in ['KILL bob :go away', 'DIE', 'SQUIT irc.irc :x', 'WALLOPS :attention', 'STATS u', 'MODE alice -O', 'MODE alice -o', 'MODE alice +o', 'MODE alice -oO', 'MODE alice -Oo', 'OPER opname goodpw']:
+        cases.append(dict(name=l + ' [every user is a local operator by default_user_modes]', line=l, judges=['no_panic', 'inv', 'opcmd', 'umode', 'oper'], spec=lspec))
     # a nick change to a configured operator name confers nothing
     cases.append(dict(name='NICK opname [operators: opname]', line='NICK opname', judges=['no_panic', 'inv', 'nick'], spec=dict(base, operators=[('opname', 'goodpw', None)])))
     if tier != 'quick':
